@@ -39,6 +39,8 @@ import time
 from fractions import Fraction as Fr
 
 sys.path.insert(0, os.path.dirname(os.path.abspath(__file__)))
+if hasattr(sys, "set_int_max_str_digits"):
+    sys.set_int_max_str_digits(0)   # exact rationals of the doubling model have thousands of digits
 import c09_ref as ref  # noqa: E402
 import lib  # noqa: E402
 import translate_expgram  # noqa: E402
@@ -63,18 +65,22 @@ EG_DIR = os.path.join(lib.WORK, "ocaml_expgram")
 # ---- tolerances (recorded in the evidence) ----
 TOL_IWP_A = 1e-12           # entrywise relative, transition matrix
 TOL_MODEL_EG = 1e-11        # implementation vs exact model of the same algorithm, relative to max-norm
-TOL_REF64 = 1e-10           # implementation vs independent reference, float64, relative to max-norm
-TOL_REF32 = 2e-4            # same, float32
+# implementation vs independent reference, relative to max-norm, per Pade/Legendre order.  Observed worst on
+# the unchanged tree over ~3000 cases (||A||_1 <= 50, n <= 6): float64 4.3e-11 / 1.4e-12 / 2.0e-13 / 7.1e-14 /
+# 1.3e-14, float32 3.9e-4 / 1.3e-5 / 9.2e-6 / 5.7e-6 / 3.6e-5 for orders 3 / 5 / 7 / 9 / 13 (the loss grows
+# like 2^num * eps with the number of doublings: 17 for order 3 at ||A||_1 = 50 in float64).
+TOL_REF64 = {3: 2e-10, 5: 2e-11, 7: 5e-12, 9: 2e-12, 13: 1e-12}
+TOL_REF32 = {3: 3e-3, 5: 1e-4, 7: 1e-4, 9: 1e-4, 13: 3e-4}
 TOL_DOUBLE = 1e-13
 TOL_HILBERT = 1e-13
-TOL_PRIOR64 = 1e-10
-TOL_PRIOR32 = 1e-3
+TOL_PRIOR64 = 1e-10         # observed worst 3.0e-12 (general exponential prior, order 9)
+TOL_PRIOR32 = 1e-4          # observed worst 9.0e-6
 
 
 def tol_iwp_q(q):
-    """Process noise, entrywise relative to sqrt(Q_ii Q_jj).  The Hilbert factor of order q+1 is
-    re-triangularised by a QR in float64; its conditioning grows like ~30^q."""
-    return 1e-9 if q <= 6 else 1e-9 * 30.0 ** (q - 6)
+    """Process noise, entrywise relative to sqrt(Q_ii Q_jj).  Observed worst on the unchanged tree: 3e-15 for
+    q <= 6 and 1e-14 for q = 10 (Kahan's recurrence is entrywise accurate, the QR of the flipped factor too)."""
+    return 1e-11
 
 
 # ------------------------------------------------------------------ utilities
@@ -563,10 +569,9 @@ def eg_term(c, num):
 
 # ---- exponential priors ----
 def gen_prior_case(rng, which, quick, zero_drift=False, small=False):
-    q = rng.randint(0 if which == "ou" else 1, 2 if (quick or small) else 3)
+    q = rng.randint(0 if which == "ou" else 1, 2 if (quick or small) else 6)
     d = rng.randint(1, 2 if small else 3)
-    if which == "matern":
-        q = max(q, 0)
+    d = max(1, min(d, 12 // (q + 1)))     # the fixed-point reference works on 2N x 2N blocks: keep N <= 12
     c = {"prior": which, "q": q, "d": d, "base": rng.choice([None, [gen_scale(rng) for _ in range(d)]]),
          "out": gen_scale(rng)}
     if which == "ou":
@@ -697,7 +702,14 @@ def main():
         for _ in range(5 if quick else 40):
             prior_cases.append(gen_prior_case(rng, which, quick))
         for _ in range(2 if quick else 10):
-            prior32_cases.append(gen_prior_case(rng, which, quick))
+            # float32: keep the Taylor preconditioner h^q/q! and its inverse inside the float32 range
+            # (q = 6, h = 1e-6 gives p_inv = 720/h^6 = 6.7e38 > float32 max: the transition is then non-finite)
+            while True:
+                c32 = gen_prior_case(rng, which, quick)
+                pq = float(c32["h"]) ** c32["q"] / math.factorial(c32["q"])
+                if 1e-25 <= pq <= 1e25:
+                    break
+            prior32_cases.append(c32)
     for which in ("ou", "exp"):
         for _ in range(2 if quick else 8):
             prior_cases.append(gen_prior_case(rng, which, quick, zero_drift=True))
@@ -797,6 +809,15 @@ def main():
         eg_emit.append(lambda c=c, G=G: f"eg_double_run {lib.coq_nat(c['n'])} {lib.qcmat(c['eA'])} {lib.qcmat(G)}")
         eg_owner.append(("dbl", i))
     cross.append(len(eg_owner) - 1)
+    var_cases = []
+    for i in range(3 if quick else 12):
+        n = rng.randint(1, 3)
+        mB = rng.randint(1, 2)
+        vc = {"n": n, "mB": mB, "A": [[Fr(rng.randint(-6, 6), 4) for _ in range(n)] for _ in range(n)],
+              "B": [[Fr(rng.randint(-4, 4), 2) for _ in range(mB)] for _ in range(n)]}
+        var_cases.append(vc)
+        eg_emit.append(lambda vc=vc: f"eg_variants_run {lib.coq_nat(vc['n'])} {lib.coq_nat(vc['mB'])} {lib.qcmat(vc['A'])} {lib.qcmat(vc['B'])}")
+        eg_owner.append(("var", i))
     for i, c in enumerate(hil_cases):
         eg_emit.append(lambda c=c: f"kahan_run {lib.coq_nat(c['K'])} {lib.coq_nat(c['n'])}")
         eg_owner.append(("hil", i))
@@ -956,7 +977,7 @@ def main():
             for b in range(n):
                 e = abs(G[a][b] - float(H[a][b])) / float(H[a][b])
                 worst_h["gram"] = max(worst_h["gram"], e)
-                if e > TOL_HILBERT * 10 ** max(0, n - 6):
+                if e > TOL_HILBERT:
                     bad = bad or f"(L L^T)[{a}][{b}] = {G[a][b]!r} vs 1/{a + b + K + 1} (rel {e:.3g})"
                 if b > a and L[a][b] != 0.0:
                     bad = bad or f"L[{a}][{b}] = {L[a][b]!r} above the diagonal"
@@ -1002,7 +1023,7 @@ def main():
                 sc = math.sqrt(float(Hf[a][a] * Hf[b][b]))
                 e = abs(G[a][b] - float(Hf[a][b])) / sc
                 upd(worst_h["gram_flip_by_q"], q, e)
-                if e > tol_iwp_q(q):
+                if e > 1e-12:
                     bad = bad or f"(Q_1d Q_1d^T)[{a}][{b}] = {G[a][b]!r} vs 1/{2 * q + 1 - a - b} (error/scale {e:.3g})"
                 if b > a and Q1[a][b] != 0.0:
                     bad = bad or f"Q_1d[{a}][{b}] = {Q1[a][b]!r} above the diagonal"
@@ -1047,6 +1068,17 @@ def main():
             ck.report(f"C09.expgram.order{p}.gramian", f"order {p}, n={n}, {int(r['num'])} doublings: U U^T differs from the exact model of the same "
                       f"algorithm by {eG:.3g} (relative to max-norm)", {"case": jc, "impl": r, "model": [[float(v) for v in row] for row in Gm]})
     ck.hist["expgram_model_cases_not_evaluated"] = {"n": n_eg_failed}
+    # the order-3 blocks and the order-13 Pade polynomials as literally written vs the generic model (exact)
+    for i, vc in enumerate(var_cases):
+        m = eg_model.get(("var", i))
+        ck.count("var" + json.dumps(jsonable(vc), sort_keys=True), nontrivial=vc["n"] >= 2, part="model-variants", n=vc["n"])
+        if m is None or isinstance(m, str):
+            continue
+        nb = 4 * vc["n"] * vc["mB"]
+        nn = vc["n"] ** 2
+        if m[:nb] != m[nb:2 * nb] or m[2 * nb:2 * nb + 2 * nn] != m[2 * nb + 2 * nn:]:
+            ck.report("C09.model.variants", "model: the order-3 blocks / order-13 Pade polynomials as written in the source differ from "
+                      "the generic initialiser", {"case": jsonable(vc)}, nofail=True)
     worst_dbl = 0.0
     for i, c in enumerate(dbl_cases):
         r = res64[ix_dbl[i]]
@@ -1089,7 +1121,7 @@ def main():
         if "error" in r:
             ck.report(f"C09.expgram.order{c['order']}.expm", f"exp_gram_cholesky raised {r['error']}", {"case": jsonable(c), "impl": r})
             continue
-        ref_compare(c, r, TOL_REF64, "ref64")
+        ref_compare(c, r, TOL_REF64[c["order"]], "ref64")
 
     # ============================================================ exponential priors (float64)
     worst_pr = {"ou": 0.0, "matern": 0.0, "exp": 0.0, "drift": 0.0, "model": 0.0, "precon": 0.0}
@@ -1203,7 +1235,7 @@ def main():
                 continue
             if r["dtype"] != ["float32", "float32"]:
                 ck.notes.append(f"float32 case returned dtypes {r['dtype']}")
-            ref_compare(c, r, TOL_REF32, "ref32")
+            ref_compare(c, r, TOL_REF32[c["order"]], "ref32")
         for i, c in enumerate(prior32_cases):
             r = res32[len(eg_ref32_cases) + i]
             jc = jsonable(c)
@@ -1223,7 +1255,7 @@ def main():
     ck.hist["worst_discrepancy_doubling_step"] = {"value": worst_dbl}
     ck.hist["worst_discrepancy_exponential_priors"] = worst_pr
     ck.hist["tolerances"] = {"iwp_A": TOL_IWP_A, "iwp_Q(q)": {str(q): tol_iwp_q(q) for q in range(11)}, "expgram_model": TOL_MODEL_EG,
-                             "expgram_ref64": TOL_REF64, "expgram_ref32": TOL_REF32, "prior64": TOL_PRIOR64, "prior32": TOL_PRIOR32}
+                             "expgram_ref64": {str(k): v for k, v in TOL_REF64.items()}, "expgram_ref32": {str(k): v for k, v in TOL_REF32.items()}, "prior64": TOL_PRIOR64, "prior32": TOL_PRIOR32}
     ck.hist["phases_s"] = {"total": round(time.time() - t_start, 1)}
 
     proof_errors = list(pr["errors"]) + [e for e in build["errors"]]
@@ -1233,7 +1265,7 @@ def main():
     ck.finish(rule="iwp: every (factorisation, q) once plus random (kind, q<=6 (10 thorough), d<=5, dyadic h in [1e-6,1e2], dyadic diagonal base "
               "scales and calibrated scales); merge: (kind, q) grid with h1+h2 exact; expgram-model: random small-integer matrices scaled by a "
               "power of two to hit a prescribed number of doublings, n<=4 (5), all five orders; expgram-ref: six matrix classes x norms up to 50 "
-              "x n<=6 x five orders, float64 and float32; expprior: OU/Matern/general exponential, q<=2 (3), d<=3, h dyadic in [1e-6,1e2]; "
+              "x n<=6 x five orders, float64 and float32; expprior: OU/Matern/general exponential, q<=2 (6), d<=3, (q+1)d<=12, h dyadic in [1e-6,1e2]; "
               "non-trivial = q>=1 resp. n>=2 resp. non-zero drift; distinct by full input")
 
 
